@@ -9,7 +9,7 @@ from .lexstep import STATES, step_unit, state_inv
 
 MANIFEST_ENTRY = {
     'category': 'proof',
-    'text': "the loop body of Lexer.scan is executed symbolically from every scanner state for an arbitrary character: every emitted token carries the file name given to the lexer and the remembered start position; the start position is written only while the scanner is between tokens and then equals the line of the character just consumed, which is never a line break when a token starts; the line counter advances exactly on consumed line breaks and an un-read character is not counted twice; runtime errors raised by nodes carry the node's position, invoke() appends exactly one stack-trace line with the call position, require parses module text under the module's name; parser node positions by bounded enumeration of layouts on the real parser; an undefined name is reported at the identifier's own position, also when it is the callee of a call; calling a non-function is reported at the call; every node a parse function builds is positioned at a token of its construct (a token the function consumed, or the opening/operator token just before its entry), proved on the abstract token stream for all parse functions; binary operations and comparisons are positioned at their operator token; module text is scanned under the file name mod:<module> whatever the alias (NodeRequire units); module error positions under every import form (bounded)",
+    'text': "the loop body of Lexer.scan is executed symbolically from every scanner state for an arbitrary character: every emitted token carries the file name given to the lexer and the remembered start position; the start position is written only while the scanner is between tokens and then equals the line of the character just consumed, which is never a line break when a token starts; the line counter advances exactly on consumed line breaks and an un-read character is not counted twice; runtime errors raised by nodes carry the node's position, invoke() appends exactly one stack-trace line with the call position, require parses module text under the module's name; parser node positions by bounded enumeration of layouts on the real parser; an undefined name is reported at the identifier's own position, also when it is the callee of a call; calling a non-function is reported at the call; every node a parse function builds is positioned at a token of its construct (a token the function consumed, or the opening/operator token just before its entry), proved on the abstract token stream for all parse functions; binary operations and comparisons are positioned at their operator token; module text is scanned under the file name mod:<module> whatever the alias (NodeRequire units); module error positions under every import form (bounded); parse_script returns what this call scanned and parsed and keeps nothing between calls (same text under several file names)",
     'note': 'columns are not part of the property; composition over all iterations is the standard inductive argument over the per-step obligations; characters below U+30000 (z3 range)',
     'technique': 'deductive verification: per-step VCs of the scanner loop body from the real AST + z3; bounded layout enumeration for parser positions',
 }
